@@ -3,7 +3,6 @@ CONSTANTS
   MaxDepth = 1
   FullArgs = FALSE
 VIEW View
-CONSTRAINT Bound
 INVARIANT TypeInv
 ACTION_CONSTRAINT Emit
 CHECK_DEADLOCK FALSE
